@@ -131,6 +131,7 @@ fn history_case<T: Sc>(rng: &mut Rng, case: u64, out: &mut CaseOut, maxlen: usiz
     let yw = widen(&wd);
     let mut last_alpha: Vec<T> = spec.alpha0.iter().map(|v| T::of(*v)).collect();
     let len = rng.int(1, maxlen);
+    let mut applied: Vec<Vec<f64>> = Vec::new();
     for step in 0..=len {
         // observe
         let params = prob.params();
@@ -172,7 +173,8 @@ fn history_case<T: Sc>(rng: &mut Rng, case: u64, out: &mut CaseOut, maxlen: usiz
         }
         if rng.chance(0.8) {
             let fresh = wide_alpha(rng, &g.alpha_true);
-            let mut a = next_alpha(rng, &alpha, fresh);
+            applied.push(alpha.clone());
+            let mut a = next_alpha_hist(rng, &applied, fresh);
             if rng.chance(0.08) {
                 // a step into a region where basis functions overflow
                 let k = rng.below(a.len());
